@@ -313,6 +313,54 @@ def _cx_ret_sites(self, body, variant=None, adt_rx=None):
     return out
 
 
+def _cx_for_loops(self, body):
+    """`for` loops of a body: [(next_site, some_block, none_block)], from the desugared
+    `match Iterator::next(&mut iter) { None => break, Some(x) => .. }` header."""
+    out = []
+    for s in body.calls(r"^std::iter::Iterator::next$"):
+        n = s.node()
+        if not (n.get("exp") and "desugar:ForLoop" in n["exp"]):
+            continue
+        t = n.get("t")
+        if t is None:
+            continue
+        term = body.blocks[t]["term"]
+        if term["k"] != "switch":
+            continue
+        arms = {str(v): b for v, b in term["targets"]}
+        if "0" in arms and "1" in arms:
+            out.append((s, arms["1"], arms["0"]))
+    return out
+
+
+def _cx_for_each(self, body, next_site, process_sites, what, allow_skip=()):
+    """LOOP-EVERY: the `for` loop headed by next_site leaves only when the iterator is exhausted
+    (no break / return from the body) and every iteration that returns to the header executed one
+    of process_sites (or crossed an edge establishing one of the allow_skip literals)."""
+    loops = [l for l in self.for_loops(body) if l[0] == next_site]
+    if not loops:
+        raise Inconclusive("%s: not a for-loop header" % what)
+    _, some_bb, none_bb = loops[0]
+    hdr = next_site.bb
+    rets = set(body.return_blocks())
+    inside = body.reachable(some_bb, "normal", cut_blocks={hdr})
+    # blocks reachable from the body without passing the header: a return among them is an early exit
+    early = sorted(b for b in inside if b in rets)
+    ok1 = self.check(not early, what + ": the loop visits every element (no early exit from the body)", next_site, {"early_exit_bbs": early} if early else None, key="for-each-noexit " + what)
+    cut_edges = set()
+    if allow_skip:
+        eng = mirlib.OnlyIf(body.facts, body)
+        for lit in allow_skip:
+            cut_edges |= set(eng.establishing_edges(lit))
+    # does a path from the Some arm get back to the header without processing?
+    r2 = body.reachable(some_bb, "normal", cut_edges=cut_edges, cut_blocks={s.bb for s in process_sites} | {hdr})
+    back = hdr in r2
+    ok2 = self.check(not back, what + ": every element is processed", next_site, {"process_sites": [repr(s) for s in process_sites]}, key="for-each-all " + what)
+    return ok1 and ok2
+
+
+Cx.for_loops = _cx_for_loops
+Cx.for_each = _cx_for_each
 Cx.stores = _cx_stores
 Cx.arg = _cx_arg
 Cx.args = _cx_args
